@@ -10,6 +10,8 @@ enum Out {
     Unit,
     Bool(bool),
     Handle,
+    /// a Bytes that an out-of-contract call handed back: (address, length)
+    Got(usize, usize),
 }
 
 const NB: usize = 18;
@@ -20,21 +22,21 @@ fn ooc_bytes(b: &mut Bytes, v: usize, k: usize) -> (Out, bool) {
     let len = b.len();
     match v {
         0 => {
-            let _ = b.slice(len / 2..len + 1 + k);
-            (Out::Handle, false)
+            let r = b.slice(len / 2..len + 1 + k);
+            (Out::Got(r.as_ptr() as usize, r.len()), false)
         }
         1 => {
-            let _ = b.slice(0..usize::MAX - k);
-            (Out::Handle, false)
+            let r = b.slice(0..usize::MAX - k);
+            (Out::Got(r.as_ptr() as usize, r.len()), false)
         }
         2 => {
             let a = len / 2 + 1;
-            let _ = b.slice(a..a - 1);
-            (Out::Handle, false)
+            let r = b.slice(a..a - 1);
+            (Out::Got(r.as_ptr() as usize, r.len()), false)
         }
         3 => {
-            let _ = b.slice(..=usize::MAX);
-            (Out::Handle, false)
+            let r = b.slice(..=usize::MAX);
+            (Out::Got(r.as_ptr() as usize, r.len()), false)
         }
         4 => {
             let _ = b.slice((Bound::Excluded(usize::MAX), Bound::Unbounded));
@@ -229,6 +231,18 @@ pub fn ooc_step(d: &mut Driver, ch: &mut dyn Chooser, i: usize) {
                 d.viol("C13", &format!("{name}-returned"), &format!("out-of-contract call {name} (k={k}, len={len}, cap={cap}, repr {rname}) returned normally instead of panicking"));
             } else if let Out::Bool(false) = out {
                 d.viol("C13", &format!("{name}-wrong-result"), &format!("documented no-op {name} returned a wrong result"));
+            }
+            if let Out::Got(p, l) = out {
+                // the call handed back a view: it must at least lie inside live memory (C02)
+                if l > 0 && !in_static(p, l) {
+                    let ok = match mem::find_live(p) {
+                        Some(b) => p.checked_add(l).map(|e| e <= b.user + b.size).unwrap_or(false),
+                        None => !mem::ENABLED,
+                    };
+                    if !ok {
+                        d.viol("C02", &format!("{name}-result-outside-allocation"), &format!("out-of-contract call {name} returned a view [{p:#x},+{l}) that is not inside a live allocation"));
+                    }
+                }
             }
             let _ = matches!(out, Out::Handle | Out::Unit);
         }
